@@ -538,6 +538,17 @@ pub fn generate(thorough: bool, seed: u64, out: &mut dyn Write) {
     for _ in 0..(if thorough { 2000 } else { 60 }) {
         gen_idx(&mut rng, out);
     }
+    // damaged index files (`mut <seed> <k> idx …`, Base/Mutate.lean): the model of the code and the
+    // code must agree on which paths are found, and where
+    {
+        let mut mrng = Rng::new(seed, "C01-mut");
+        for _ in 0..(if thorough { 20000 } else { 300 }) {
+            let mut buf: Vec<u8> = vec![];
+            gen_idx(&mut mrng, &mut buf);
+            let line = String::from_utf8(buf).unwrap();
+            writeln!(out, "mut {} {} {}", mrng.next() >> 1, 1 + mrng.below(3), line.trim_end()).unwrap();
+        }
+    }
     // tables beyond 2^16 entries, both index kinds (thorough: also 2^16 - 1, 2^16, 2^17 + 1)
     gen_idx_wide(&mut rng, 1, 65537, out);
     gen_idx_wide(&mut rng, 2, 66000, out);
